@@ -283,6 +283,15 @@ def rule_A1(ctx):
     f = prog.fn(PT + "write_map_results")
     loops, early = _loops_and_exits(prog, f)
     if not loops:
+        # not a scan.  One thing can still be decided on any rewrite: every entry of every chain must be a candidate, and
+        # `zip(*per-chain sequences)` stops at the shortest chain (chains differ in length whenever --max-time strikes)
+        for fn_ in [f] + [g for g in prog.functions.values() if prog.is_new_function(g) and g.module is f.module]:
+            for c in calls(fn_.node):
+                if isinstance(c.func, ast.Name) and c.func.id == "zip" and any(isinstance(a, ast.Starred) for a in c.args):
+                    ctx.fail("A1", "write_map_results: every entry of every chain is a candidate for the maximum", fn_.where(c),
+                             "`%s` lines the chains' entries up position by position: zip stops at the shortest chain, so the tail of a longer chain (a chain stopped by --max-time is shorter than the others) is never compared — the maximum can be missed" % u(c)[:90],
+                             construct=f.qualname, stmt="zip over per-chain traces")
+                    return
         raise AnalysisError("write_map_results contains no loop: the arg-max is not a scan (e.g. a max()-based rewrite) and is not recognised")
     if early:
         g, n = early[0]
